@@ -26,7 +26,8 @@ _ten = [0, 7, 19, 23, 34, 35, 46, 52, 61, 69]
 SPECS = {
     "quick": [spec("keys", [], bound=0, il=i) for i in range(70)]
     + [spec("keys", REQ, bound=1, il=i) for i in (19, 35)]
-    + [spec(k, REQ, bound=1, faults=F) for k in ("nested", "tworuns", "bare", "count2")],
+    + [spec(k, REQ, bound=1, faults=F) for k in ("nested", "tworuns", "bare", "count2")]
+    + [spec("tiny", REQ, bound=2)],
     "thorough": [spec("keys", REQ, bound=1, il=i, faults=F) for i in _ten]
     + [spec(k, REQ, bound=1, faults=F, a=a) for k in ("nested", "tworuns", "bare", "count2", "cleanup", "fly1") for a in (0, 1)]
     + [spec(k, REQ, bound=2) for k in ("tiny", "tworuns")],
